@@ -221,12 +221,13 @@ def judge(run, name, hist_ops, rec, res, ans, step):
 
 
 def bulk_history(n):
-    """Thorough tier: more isotherms than one grouped(...,100) chunk of isotherms_from_db."""
+    """More isotherms than two grouped(...,100) chunks of isotherms_from_db; 2 points each, built once per session."""
     keys = []
     for i in range(1, n + 1):
         k = "B%03d" % i
         sc.ISOS[k] = ("point", "M1" if i % 2 else "M2", "m1" if i % 2 else "m0", "A1" if i % 3 else "A2", "a0", "tp", "plain")
         sc.ISO_META[k] = {"vkey": k, "x_float": i / 8.0}
+        sc.LARGE_POINTS[k] = 2
         keys.append(k)
     return keys
 
@@ -309,7 +310,7 @@ def main(tier, seed):
         finally:
             sess.close()
         nbulk = 0
-        if thorough:
+        if True:      # both tiers: retrieval of more than 200 isotherms, without criteria and with criteria matching > 100
             bulk = bulk_history(230)
             try:
                 sess = sc.Session(sc.db_scratch(scratch, "dbbulk"))
@@ -327,9 +328,10 @@ def main(tier, seed):
                 for k in bulk:
                     sc.ISOS.pop(k, None)
                     sc.ISO_META.pop(k, None)
+                    sc.LARGE_POINTS.pop(k, None)
         run.add("traces_validated_against_impl", len(histories))
         run.set(records_validated=nrec + nbulk,
-                histories={"witness": len(witnesses), "scripted": len(scripted()), "simulated": nsim, "bulk": 1 if thorough else 0},
+                histories={"witness": len(witnesses), "scripted": len(scripted()), "simulated": nsim, "bulk": 1},
                 exhaustive=False,
                 rule="histories = shortest witness histories of every Impl-vs-Spec divergence class (TLC BFS) + scripted orders + TLC -simulate "
                      "random histories (14 operations over 2 files, 2 adsorbates, 2 materials, 3-7 isotherms, 6 type keys; every 3rd history renamed "
